@@ -52,12 +52,17 @@ Fixpoint read_dims (data : bytes) (dimSize : N) (n : nat) (offset : N) : outcome
   end.
 
 Definition dec_dataspace (data : bytes) : outcome dataspace' :=
-  if blen data <? 2 then Err else
+  if blen data <? 3 then Err else               (* < 2 before /repo 1739724: a 2-byte message panicked *)
   version <- index data 0;;
   if negb (version =? 1) && negb (version =? 2) then Err else
   dimensionality <- index data 1;;
-  flags <- index data 2;;                      (* no length check for index 2: a 2-byte message panics *)
+  flags <- index data 2;;
   let hasMax := N.testbit flags 0 in
+  (* version 2 stores the type: a null dataspace (type 2) has no elements *)
+  t3 <- (if (version =? 2) && (4 <=? blen data) then index data 3 else Ok 0);;
+  if (version =? 2) && (4 <=? blen data) && (t3 =? 2) then
+    Ok {| dsp_version := version; dsp_type := 2; dsp_dims := []; dsp_maxdims := None |}
+  else
   if dimensionality =? 0 then
     Ok {| dsp_version := version; dsp_type := 0; dsp_dims := [1]; dsp_maxdims := None |}
   else
